@@ -428,6 +428,20 @@ func c17Gen(r *vRand) *c17Case {
 		if c.Root.add("fifo", &c17Node{Kind: "fifo"}) {
 			tag("special-file")
 		}
+	case 8: // F18: a link to a file that a json mount provides inside the output dir
+		has := false
+		for _, m := range c.Mounts {
+			if m.Kind == "json" {
+				has = true
+			}
+		}
+		if !has && c.Root.add("j.json", &c17Node{Kind: "file", Data: "{\"a\":1}"}) {
+			c.Mounts = append(c.Mounts, c17Mount{Path: c17Ctr + "/j.json", Kind: "json"})
+			has = true
+		}
+		if has && c.Root.add("f18l", &c17Node{Kind: "link", Target: "j.json"}) {
+			tag("shape=F18")
+		}
 	case 5, 6: // absolute link targets that are not clean (to a file, to a secret below the output dir)
 		c.Root.add("ncfile", &c17Node{Kind: "file", Data: "plain"})
 		tgt := c17Ctr + []string{"/./ncfile", "//ncfile", "/sub/../ncfile", "/ncfile/"}[r.Intn(4)]
